@@ -52,7 +52,7 @@ AUTOMUT_TRIAGE = [
     (r".", r"drop keyword valid=|logical_and->logical_or", "the RESULT's validity is C08's subject (C08.D1/D2 report it); C03 speaks of operands' validity only"),
     (r"__(pos|neg|abs)__|\.(real|imag|phase|abs|conjugate|cross|angle|__array_ufunc__)$", r"drop keyword (unit|vdim_mapping|vdims)=",
      "labels/mapping/unit of non-commutative and unary results are not part of the statement (a mapping without its labels IS reported, D6)"),
-    (r"\.cross$", r"line \d+: and<->or", "equivalent: the compatibility test before it makes both component counts equal"),
+    (r"\.cross$", r"nvdim != 3.*and<->or", "equivalent: the compatibility test before it makes both component counts equal"),
 ]
 
 OPS = {"__add__": ("np.add", "+"), "__sub__": ("np.subtract", "-"), "__mul__": ("np.multiply", "*"),
